@@ -6,7 +6,7 @@ Dubins3D<Owen>, SpaceInformation::checkMotion(states,count[,first])) vs the Lean
 scripts, line by line: verdict, segment count, lastValid.second (bits), lastValid.first vs interpolant, untouched-on-
 success, the full order of subdivision indices handed to isValid, both counters before/after.
 Spec oracle (on the implementation's output only, written independently of the model, in Python): see `oracle`.
-Round 10: reconfiguration histories (`history_scripts`: swapvc / setfrac / setfac / setup / setmv / resetcnt between checks) and
+Round 10: reconfiguration histories (`history_scripts`: swapvc / setfrac / setbounds / setfac / setup / setmv / resetcnt between checks) and
 re-entrancy (`nest_scripts`: the checker runs a nested checkMotion inside its k-th question) for every validator.
 """
 import math
@@ -141,7 +141,7 @@ def parse_q(s):
     return [int(x) if x.isdigit() else None for x in s.split(",")]
 
 
-RECONF_OPS = ("swapvc", "setfrac", "setfac", "setup", "setmv", "resetcnt")
+RECONF_OPS = ("swapvc", "setfrac", "setbounds", "setfac", "setup", "setmv", "resetcnt")
 
 
 def foreign_query(qraw):
@@ -291,7 +291,7 @@ def oracle(script, out, segs=None):
     installed last."""
     cfg = dict(parse_header(script[0]))
     cfg["f"] = list(cfg["f"])
-    pend_frac = cfg["frac"]
+    pend = {"frac": cfg["frac"], "lo": cfg["lo"], "hi": cfg["hi"]}     # as last set; setup() makes them effective
     tree, nreals, _nf, hinted = space_info(cfg)
     stats = {"n0_invalid": 0, "ambiguous": 0, "calls": 0, "nontrivial": 0, "nopath": 0, "f75": [], "box": 0, "gms": 0,
              "narrow": [], "constrained": 0, "nested_run": 0, "nested_not_reached": 0, "reconf": 0}
@@ -320,16 +320,18 @@ def oracle(script, out, segs=None):
             if op == "swapvc":
                 inv, box = set(), False                 # a new checker object: the empty predicate
             elif op == "setfrac":
-                pend_frac = bits2f(t[1])                # read by setup() only
+                pend["frac"] = bits2f(t[1])             # read by setup() only
+            elif op == "setbounds":
+                pend["lo"], pend["hi"] = bits2f(t[1]), bits2f(t[2])     # the extent is recomputed by setup() only
             elif op == "setfac":
                 if int(t[1]) < len(cfg["f"]):
                     cfg["f"][int(t[1])] = int(t[2])     # takes effect at once
             elif op == "setup":
-                cfg["frac"] = pend_frac
+                cfg.update(pend)
             elif op == "setmv":
                 prev_cnt = (0, 0)                       # a new validator object: fresh counters
                 if t[1] == "default":
-                    cfg["frac"] = pend_frac             # (installed by setup())
+                    cfg.update(pend)                    # (installed by setup())
                 cfg["validator"] = t[1]
             elif op == "resetcnt":
                 prev_cnt = (0, 0)
@@ -986,7 +988,7 @@ def history_scripts(ck, hbin, r, tier):
                 npairs += 1
                 first = False
                 continue
-            k = r.below(9 if not cons else 5)
+            k = r.below(10 if not cons else 5)
             if k in (0, 1, 2):
                 steps.append(("op", "swapvc " + ("keep", "drop", "fn", "keep")[r.below(4)]))
             elif k == 3:
@@ -1003,6 +1005,12 @@ def history_scripts(ck, hbin, r, tier):
                     steps.append(("op", "setup"))
             elif k == 7:
                 steps.append(("op", "setfac %d %d" % (r.below(nf), r.range(1, 3))))
+            elif k == 9:
+                if space != "r1":
+                    lo_, hi_ = r.choice([(-4.0, 4.0), (-6.0, 6.0), (-4.0, 8.0), (-5.0, 4.5)])
+                    steps.append(("op", "setbounds %s %s" % (f2bits(lo_), f2bits(hi_))))
+                    if r.chance(1, 2):
+                        steps.append(("op", "setup"))
             else:
                 steps.append(("op", "resetcnt"))
         for s in steps:
@@ -1021,6 +1029,10 @@ def history_scripts(ck, hbin, r, tier):
         for s, ol in zip(steps, o[1:]):
             if s[0] == "op":
                 lines.append(s[1])
+                if s[1].startswith("swapvc") and r.chance(1, 2):
+                    # the state-list forms ask the SpaceInformation's current checker too
+                    cnt_ = r.range(1, 9)
+                    lines.append(list_line(cnt_, [0 if r.below(6) == 0 else 1 for _ in range(cnt_ + r.below(2))]))
                 continue
             kv = kvline(ol)
             n = int(kv["n"])
@@ -1054,7 +1066,7 @@ def nest_scripts(ck, hbin, r, tier):
     except the two atlas-based constrained spaces (their traversals change the atlas, i.e. the next traversal)."""
     out = []
     reps = 3 if tier == "thorough" else 1
-    for space, validator in [c for c in ALL_CONFS if c[0] not in ("atlas", "tb")] * reps:
+    for space, validator in ALL_CONFS * reps:
         cfg = conf_cfg(r, space, validator)
         tree, nreals, nf, hinted = space_info(cfg)
         cons = space in CSPACES
@@ -1656,7 +1668,8 @@ MANIFEST = {
             "run through the model's Config.step (history_current_config, history_checks_irrelevant, history_verdict; "
             "latched_checker_fails) -- and not on calls interleaved at query points: the recorded checker runs a complete nested "
             "checkMotion (either form, same or second thread) inside the k-th validity question (reentrant_result_alone, "
-            "reentrant_validators, reentrant_nested_alone; shared_scratch_fails).",
+            "reentrant_validators, reentrant_nested_alone, reentrant_constrained; shared_scratch_fails); setBounds + setup() as a "
+            "reconfiguration; segCount_tight, zero_length_motion.",
     "note": "Trusted: Lean kernel, the three standard axioms, the hand-written model outside the explored inputs, the harness' "
             "state->index decoding.  interpolate/distance/isValid are oracles (C07/C06/C14).  n = 0 with an invalid end state "
             "(fraction -1/0) is excluded from the [0,1) clause and only exercised.  F7 (Dubins/RS/Dubins3D two-argument check did "
